@@ -52,3 +52,7 @@ ENTRY["theorems"] += ['AGV.Project.discover_nearest', 'AGV.Project.discover_none
 ENTRY["units"] += ["project"]
 ENTRY["trusted_base"] += ["project slice (Model/Project, unit project) - modelled, not verified: find_config_path_with_default, ProjectConfig::{discover_project, setup, find_rules}, build_util_walker, find_util_rules, read_directory_yaml, read_rule_file, config_file_type, into_map (last document of an id wins), ScanArg's clap conflicts, ScanWithConfig::try_new (source of the rules), filter_rule_by_regex, ErrorContext::exit_code for the loading errors; parameters: read_to_string (UTF-8), serde_yaml on sgconfig.yml, from_yaml_string and parse_global_utils (Model/Loader, Model/GlobalLoader), the verdict of ignore files, the --filter regex; the file system is a tree whose child lists are in readdir order (the harness reads the temp project back with std::fs::read_dir); the serial walker of the `ignore` crate is modelled from its observed behaviour (root never filtered, hidden directories pruned, type whitelist *.yml/*.yaml beats the hidden-file rule, readdir order, depth first); path resolution of --config / -r / the current directory, symbolic links, I/O errors inside a walk, customLanguages / languageGlobs / languageInjections registration are outside the model"]
 MANIFEST["text"] += " Project slice (Model/Project, Props/Project, unit project): which configuration and which rule files a scan uses — discover_nearest / discover_none (without --config the project directory is the nearest ancestor-or-self directory of the start directory holding an entry sgconfig.yml; none up to the root = no project, which only fails a scan without --rule/--inline-rules, exit 2), config_flag_overrides, setup_project, setup_unreadable_shadows (a nearer sgconfig.yml that is a directory or not UTF-8 is an error, the search does not go on); rules_exact / rules_exact_dirs (a document is loaded iff it is a document of a ruleDirs entry naming a file, or of a file named *.yml / *.yaml reachable below a ruleDirs entry through directories that are neither hidden nor excluded by an ignore file — hidden FILES with a rule extension are loaded; nothing else is loaded, the result is the concatenation in ruleDirs and walk order), duplicate_ids_all_kept (documents sharing an id are all kept, no error, no winner), loaded_twice_counterexample (a file reached through two ruleDirs entries is loaded twice), rule_conflicts / rule_source / inline_source / no_project_error / filter_exact / no_filter_all (--rule excludes --inline-rules and --filter; --rule and --inline-rules are parsed without the project's global utilities and never read the rule directories; --filter keeps exactly the project documents whose id matches, none = exit 2), inline_ignores_filter_counterexample (known finding: with --inline-rules the filter and the severity flags are ignored; same for the severity flags with --rule). Correspondence: 600 generated temp projects (800 CLI processes) per quick run, `agv-sg scan --inspect entity` vs the model given the tree as std::fs::read_dir lists it: same rule list in the same order with the same final severities and project directory, or the same error class, path and exit status."
+
+# project slice, follow-up: no rule file is loaded twice
+ENTRY["theorems"] += ['AGV.Project.Dir.get_uniqueNames', 'AGV.Project.lookup_uniqueNames', 'AGV.Project.At_head', 'AGV.Project.walk_nodup', 'AGV.Project.walkRoot_nodup', 'AGV.Project.RuleFileOf_prefix', 'AGV.Project.rules_files_once', 'AGV.Project.rules_loaded_once', 'AGV.Project.rules_loaded_once_count', 'AGV.Project.loaded_twice_overlaps']
+MANIFEST["text"] += " None twice: walk_nodup (unique child names: one walk yields no path twice), rules_loaded_once / rules_loaded_once_count (pairwise non-overlapping ruleDirs: every rule file contributes its documents exactly once; loaded_twice_overlaps: the hypothesis is necessary)."
